@@ -1,3 +1,4 @@
+import CwMt.Proofs.EngineInv
 import CwMt.Proofs.EngineB
 /-
   C11 — Code ids and contract addresses are unique, stable and usable.
@@ -107,5 +108,21 @@ theorem empty_label_rejected (cfg : Config E) (blk : Block) (fuel : Nat) (ch : C
 /-- non-vacuity: non-contiguous ids -/
 example : ∃ st', Registry.storeCodeWithId {} "creator" 10 (fun _ => []) = .ok (10, st') ∧
     st'.codes.lookup 10 = some { creator := "creator", checksum := [], sourceId := 0 } := ⟨_, rfl, by decide⟩
+
+end CwMt.C11
+
+/-! ### stability over whole executions -/
+namespace CwMt.C11
+open CwMt
+
+/-- Whatever a message tree does, every contract that existed before still exists afterwards at the
+same address with the creator, label and creation height it was registered with. -/
+theorem registry_stable {E : Type} (cfg : Config E) (hf : ExtFrame cfg) (blk : Block) (fuel : Nat)
+    (ch ch' : Chain E) (sender : Addr) (m : Msg) (tr tr' : Trace) (r : AppResponse)
+    (h : execute cfg blk fuel ch sender m tr = (.ok (r, ch'), tr'))
+    (c : Addr) (cd : ContractData) (hc : ch.contracts.get? c = some cd) :
+    ∃ cd', ch'.contracts.get? c = some cd' ∧ cd'.creator = cd.creator ∧ cd'.label = cd.label ∧
+      cd'.created = cd.created :=
+  EngineInv.registry_stable cfg hf blk fuel ch ch' sender m tr tr' r h c cd hc
 
 end CwMt.C11
